@@ -731,7 +731,10 @@ impl<'c> VisitMut for Rw<'c> {
                     let pat = l.pat.clone(); let e = init.expr.clone();
                     let mut names = BTreeSet::new(); Binders(&mut names).visit_pat(&pat);
                     if names.len() != 1 { self.cx.err(format!("outside dialect: let-else with {} binders in {}", names.len(), self.fn_name)); }
-                    else { let b = ident(names.iter().next().unwrap()); self.cx.fire("LE1"); *st = parse_quote!(let #b = match #e { #pat => #b, _ => #div };); }
+                    else { let b = ident(names.iter().next().unwrap()); self.cx.fire("LE1");
+                        // (a binder the pattern declares `mut` stays mutable outside the match)
+                        let is_mut = format!(" {} ", pat.to_token_stream().to_string().replace('(', " ( ").replace(')', " ) ")).contains(&format!(" mut {} ", b));
+                        if is_mut { *st = parse_quote!(let mut #b = match #e { #pat => #b, _ => #div };); } else { *st = parse_quote!(let #b = match #e { #pat => #b, _ => #div };); } }
                 } }
             }
         }
@@ -803,6 +806,7 @@ impl<'c> VisitMut for Rw<'c> {
                 // M4: `format!(..)` with arguments that only read is some string; nothing is known about its text (error messages)
                 match impure_log_args(&m.mac) { Ok(v) if v.is_empty() => { self.cx.fire("M4"); *e = parse_quote!(hx_format()); } _ => self.cx.err(format!("outside dialect: macro `format` with an argument that does more than read in {}", self.fn_name)) }
             }
+            else if nospace(&m.mac.path.to_token_stream().to_string()) == "log::log_enabled" { self.cx.fire("M4"); *e = parse_quote!(hx_log_enabled()); /* whether a log level is on: some bool, nothing known, nothing done */ }
             else if m.mac.path.is_ident("vec") { self.cx.fire("M3"); /* `vec![..]` is part of the verifier's dialect: its element expressions are left as they are */ }
             else { self.cx.err(format!("outside dialect: macro `{}` in {}", nospace(&m.mac.path.to_token_stream().to_string()), self.fn_name)); }
         }
